@@ -42,5 +42,6 @@ BlockWrong(e) ==
 FindWrong(e, tol) ==
     IF Len(e.pal) = 0 THEN (IF e.isdefault THEN {} ELSE {"empty_palette"})
     ELSE IF e.idx < 1 \/ e.idx > Len(e.pal) THEN {"not_a_member"}
-    ELSE IF \E q \in 1..Len(e.pal) : e.d[q] + tol < e.d[e.idx] THEN {"not_nearest"} ELSE {}
+    \* members that are not colours carry distance -1: they are never "closer", and choosing one is not judged
+    ELSE IF e.d[e.idx] >= 0 /\ \E q \in 1..Len(e.pal) : e.d[q] >= 0 /\ e.d[q] + tol < e.d[e.idx] THEN {"not_nearest"} ELSE {}
 =============================================================================
